@@ -45,6 +45,7 @@ const modA = `module a { namespace "urn:a"; prefix a;
   leaf-list ll { type string; ordered-by user; } leaf-list ls { type uint8; }
   list li { key k; ordered-by user; leaf k { type string; } leaf v { type int8; } }
   list ls2 { key k; leaf k { type uint8; } leaf w { type string; } }
+  list l2k { key "k k2"; leaf k { type string; } leaf k2 { type uint8; } leaf z { type string; } }
   container in { presence p; leaf x { type string; } }
  } }`
 const modB = `module b { namespace "urn:b"; prefix b; import a { prefix a; }
@@ -90,6 +91,10 @@ func slots() [][]*D {
 		{lf("ls", "3", "1", "2"), lf("ls", "255")},
 		{{Name: "li", Kids: []*D{entry("k2", lf("v", "1")), entry("k1")}}, {Name: "li", Kids: []*D{entry("only", lf("v", "-5"))}}, {Name: "li", Kids: []*D{entry("k\\n1"), entry("k 2\"")}}},
 		{{Name: "ls2", Kids: []*D{entry("3"), entry("1", lf("w", "ww"))}}},
+		// a list with two keys: entries that share the first key, entries that share the second
+		{{Name: "l2k", Kids: []*D{entry("red", lf("k2", "1"), lf("z", "a")), entry("red", lf("k2", "2"))}},
+			{Name: "l2k", Kids: []*D{entry("red", lf("k2", "1")), entry("blue", lf("k2", "1"), lf("z", "b"))}},
+			{Name: "l2k", Kids: []*D{entry("x", lf("k2", "0"))}}},
 		{{Name: "in"}, {Name: "in", Kids: []*D{lf("x", "inner")}}},
 		{lf("fromb", "v")},
 		{{Name: "cb", Kids: []*D{lf("y", "7")}}},
@@ -471,7 +476,7 @@ func litPath(p string) string {
 	var out []string
 	for i := 0; i < len(parts); i++ {
 		out = append(out, parts[i])
-		if (parts[i] == "li" || parts[i] == "ls2") && i+1 < len(parts) {
+		if (parts[i] == "li" || parts[i] == "ls2" || parts[i] == "l2k") && i+1 < len(parts) {
 			i++ // skip the entry name
 		}
 	}
